@@ -3,8 +3,8 @@ import json, os
 import vlib
 from props import uni
 
-EXPORTABLE = [0, 1, 2, 3, 4, 5, 6, 7, 8, 9, 10, 11, 12, 13, 17, 18, 19, 20, 21, 22, 23, 24, 39, 40, 41, 42, 43, 44, 45, 46, 47, 48, 49, 50, 51, 52]
-ENVS = [None, "rel/out", "$ROOT/abs/out", "./bindings/../bindings/."]
+EXPORTABLE = [0, 1, 2, 3, 4, 5, 6, 7, 8, 9, 10, 11, 12, 13, 17, 18, 19, 20, 21, 22, 23, 24, 39, 40, 41, 42, 43, 44, 45, 46, 47, 48, 49, 50, 51, 52, 57, 58, 59, 60]
+ENVS = [None, "rel/out", "$ROOT/abs/out", "./bindings/../bindings/.", "$ROOT/abs/x/../out"]
 
 
 def spellings(dod, root=""):
@@ -63,7 +63,7 @@ def run(ctx):
         return ctx.finish(proof=proof)
     root = os.path.join(vlib.SCRATCH, "u6")
     total = groups = 0
-    rootsets = [[7], [2], [4, 5], [23, 3], [10, 11], [21, 22], [17, 24], [6, 9, 5], [18, 19, 20], [4, 23, 5, 3], [39, 3], [40, 5], [41, 45], [45, 42, 43], [49], [47, 46], [50, 51], [52]]
+    rootsets = [[7], [2], [4, 5], [23, 3], [10, 11], [21, 22], [17, 24], [6, 9, 5], [18, 19, 20], [4, 23, 5, 3], [39, 3], [40, 5], [41, 45], [45, 42, 43], [49], [47, 46], [50, 51], [52], [57, 3], [60], [57, 39]]
     # one type of every shared file alone (so that the other types of that file are "outside the export set")
     types0, _ = uni.describe(binary, root, None)
     byp = {}
@@ -84,7 +84,7 @@ def run(ctx):
             for vi, (vname, steps) in enumerate(vs):
                 pre = []
                 if vi % 3 == 1:      # stale files at (some) target locations and an unrelated file
-                    pre = [{"k": "write", "p": dod.rstrip("/") + "/" + __import__("posixpath").normpath(types[t]["output_path"]),
+                    pre = [{"k": "write", "p": __import__("posixpath").normpath(dod.rstrip("/") + "/" + types[t]["output_path"]) if not dod.startswith("$ROOT") else "$ROOT" + __import__("posixpath").normpath("/" + dod[5:].strip("/") + "/" + types[t]["output_path"]),
                             "s": "// stale\n\nexport type Stale = 1;\n" if j % 2 else "garbage without blank line"} for j, t in enumerate(S)]
                 elif vi % 3 == 2:    # a previous run (another process): same files already there
                     pre = [{"k": "export_all", "t": r} for r in roots] + [{"k": "reset"}]
